@@ -27,7 +27,11 @@ Evaluated(p) == p # "file"
 (* a switch in ctx has `case 1:` before the slot and `default:` iff dflt;           *)
 (* var: zbase is variadic and has a started va_list `ap`.                            *)
 (* zbase always has a parameter `int pa`, the locals li, lr and a label L1.          *)
-B(r, c, d, v) == [ret |-> r, ctx |-> c, dflt |-> d, var |-> v]
+(* fn: the kind of function definition zbase is (the FUNCTION CONTEXT of the slot):                       *)
+(*   plain `T zbase(..)`, static, inline (an inline definition, 6.7.4p7), static_inline, extern_inline,   *)
+(*   decl_inline (`T zbase(..);` then `inline T zbase(..) {`: an external definition), noreturn.           *)
+B(r, c, d, v) == [ret |-> r, ctx |-> c, dflt |-> d, var |-> v, fn |-> "plain"]
+BF(r, c, fn) == [ret |-> r, ctx |-> c, dflt |-> FALSE, var |-> FALSE, fn |-> fn]
 BaseTab == [
   b01 |-> B("void", <<>>, FALSE, FALSE),
   b02 |-> B("int", <<>>, FALSE, FALSE),
@@ -48,8 +52,17 @@ BaseTab == [
   b17 |-> B("int", <<"for", "block">>, FALSE, FALSE),
   b18 |-> B("void", <<"do", "switch">>, FALSE, FALSE),
   b19 |-> B("double", <<>>, FALSE, FALSE),
-  b20 |-> B("void", <<"while", "while">>, FALSE, TRUE)
+  b20 |-> B("void", <<"while", "while">>, FALSE, TRUE),
+  b21 |-> BF("void", <<>>, "static"),         b22 |-> BF("int", <<"while", "switch">>, "static"),
+  b23 |-> BF("void", <<>>, "inline"),         b24 |-> BF("int", <<"while", "switch">>, "inline"),
+  b25 |-> BF("void", <<>>, "static_inline"),  b26 |-> BF("int", <<"while", "switch">>, "static_inline"),
+  b27 |-> BF("void", <<>>, "extern_inline"),  b28 |-> BF("int", <<"while", "switch">>, "extern_inline"),
+  b29 |-> BF("void", <<>>, "decl_inline"),    b30 |-> BF("int", <<"while", "switch">>, "decl_inline"),
+  b31 |-> BF("void", <<>>, "noreturn"),       b32 |-> BF("void", <<"while", "switch">>, "noreturn")
 ]
+FnOf(b) == BaseTab[b].fn
+(* 6.7.4p3: an inline definition of a function with external linkage defines no object of static or thread storage duration *)
+BaseLocals(b) == IF FnOf(b) = "inline" THEN <<PreludeLocals[1]>> ELSE PreludeLocals
 AllBases == DOMAIN BaseTab
 InLoop(b)   == \E i \in DOMAIN BaseTab[b].ctx : BaseTab[b].ctx[i] \in {"while", "do", "for"}
 InSwitch(b) == \E i \in DOMAIN BaseTab[b].ctx : BaseTab[b].ctx[i] = "switch"
